@@ -168,7 +168,7 @@ func (f *artAllocator) allocLeaf(key []byte) (arena.MemdbArenaAddr, *artLeaf) {
 	addr, data := f.nodeAllocator.Alloc(size, true)
 	lf := (*artLeaf)(unsafe.Pointer(&data[0]))
 	lf.keyLen = uint16(len(key))
-	lf.flags = 0
+	lf.flags = deleteFlag // not counted yet: setValue counts the leaf and clears the mark
 	lf.vLogAddr = arena.NullAddr
 	copy(data[leafSize:], key)
 	return addr, lf
